@@ -965,3 +965,21 @@ Proof.
   - reflexivity.
 Qed.
 
+(* ---- non-vacuity: a line using every feature of the syntax is in the domain ---------------------- *)
+Definition ex_instr : sinstr :=
+  {| s_label := Some [108]; s_output := Some [111]; s_command := Some [99];
+     s_args := [[]; [97; c_sp; 98]; [120; c_quote; 121; c_lf]; [c_eq; c_hash]] |}.
+Definition ex_choices : choices :=
+  {| ch_lead := [c_tab]; ch_trail := [c_sp; c_cr]; ch_label_gap := 1; ch_eq_left := 0; ch_eq_right := 2;
+     ch_args := [ {| a_gap := 0; a_quoted := true; a_esc := [] |};
+                  {| a_gap := 2; a_quoted := true; a_esc := [true; false; false] |};
+                  {| a_gap := 0; a_quoted := false; a_esc := [false; true; false; true] |};
+                  {| a_gap := 0; a_quoted := true; a_esc := [] |} ];
+     ch_comment := Some (1%nat, [c_sp; c_quote; c_bs]) |}.
+(*  TAB :l  o=  c "" "a b" x[bs][quote]y[bs]n "=#" # [quote][bs] SP CR  *)
+Lemma ex_in_domain :
+  wf ex_instr = true /\ valid ex_instr ex_choices = true /\
+  render_line ex_instr ex_choices =
+    [9; 58;108; 32;32; 111; 61; 32;32; 99; 32; 34;34; 32;32;32; 34;97;32;98;34; 32; 120;92;34;121;92;110;
+     32; 34;61;35;34; 32; 35; 32;34;92; 32;13].
+Proof. vm_compute. repeat split; reflexivity. Qed.
